@@ -14,6 +14,7 @@ def run(ctx):
     guards(ctx)
     head(ctx)
     partial(ctx)
+    complete(ctx)
     client(ctx)
 
 
@@ -195,3 +196,100 @@ def client(ctx):
     fam = [x for x in F.find(r"^klukai_agent::api::peer::parallel_sync")]
     reqs = [(x,) + a for x in fam for a in cm.aggregates(x, "klukai_types::sync::SyncMessageV1", "Request")]
     R.require(bool(reqs), "request-ctor", "", "%d SyncMessageV1::Request construction(s) in parallel_sync" % len(reqs), fail_msg="no Request construction found in parallel_sync")
+
+
+def _heads_next(b, pushes):
+    hs = [c for c in b.calls if c.name() == "next" and "ActorId, klukai_types::base::CrsqlDbVersion" in c.self_ty and all(b.dominates(c.bb, p.bb) for p in pushes)]
+    return hs[-1] if hs else None
+
+
+def complete(ctx):
+    """Completeness, structural half: an advertised head may be passed over only by the two sanctioned skips (own actor,
+    head 0).  Otherwise the iteration must consult our need ranges, our partial_need map and our head for that actor, and each
+    productive branch must reach its push.  (That the pushed ranges are the full set difference is a value property: not decided.)"""
+    F = ctx.F
+    R = ctx.rule("C04.complete", "K2", "every advertised head that is not the node's own actor or 0 consults self.need, self.partial_need and self.heads, and each productive branch reaches its push")
+    b = _body(F, R)
+    if b is None:
+        return
+    pushes = _pushes(b)
+    hn = _heads_next(b, pushes)
+    if not R.anchor(hn, "heads-loop", "iteration over other.heads"):
+        return
+    start = b.term(hn.bb).get("tgt")
+    skip_edges = []
+    for c in b.calls:
+        if c.f in ("core::cmp::PartialEq::eq", "core::cmp::PartialEq::ne") and (c.self_ty.endswith("ActorId") or c.self_ty.endswith("CrsqlDbVersion")) and all(b.dominates(c.bb, p.bb) for p in pushes):
+            te, fe = flow.true_false_targets(b, c)
+            skip_edges += te if c.name() == "eq" else fe
+    if not R.floor(len(skip_edges), 2, "skips", "sanctioned skip edges (own actor / zero head)"):
+        return
+    gets = [c for c in b.calls if c.f.endswith("HashMap::<K, V, S>::get") and b.dominates(hn.bb, c.bb)]
+    want = {"need": None, "partial_need": None, "heads": None}
+    for g in gets:
+        af = cm.deep_arg_fields(b, op_place(g.args[0]), (g.bb, "T"))
+        for k in want:
+            if af and all(x == "arg1." + k or x.startswith("arg1." + k + ".") for x in af) and want[k] is None:
+                # the lookup consulted once per advertised head (not the nested one inside the partials loop)
+                if not any(b.dominates(o.bb, g.bb) and o is not g for o in gets if cm.deep_arg_fields(b, op_place(o.args[0]), (o.bb, "T")) == af):
+                    want[k] = g
+    for k, g in sorted(want.items()):
+        if not R.anchor(g, "self." + k, "per-head lookup self.%s.get(actor_id)" % k):
+            continue
+        bypass = b.can_reach(start, hn.bb, no_nodes=(g.bb,), no_edges=skip_edges)
+        R.require(not bypass, "consults-self." + k, g.where(), "every non-skipped advertised head reaches self.%s.get(actor_id)" % k,
+                  fail_msg="an advertised head can be passed over without consulting self.%s (a path from the heads loop back to its next() avoids the lookup and both sanctioned skips): versions/ranges the peer has and we lack are not requested" % k)
+    # productive branches reach their push
+    # (1) each overlap of one of our need ranges with other_haves -> Full push
+    ov = [c for c in b.calls if c.name() == "next" and "Overlapping" in c.self_ty and "CrsqlDbVersion" in c.self_ty]
+    if R.anchor(ov, "overlap-loop", "iteration over other_haves.overlapping(range)"):
+        o = ov[0]
+        some = _some_target(b, o)
+        full_push = [p for p in pushes if b.dominates(o.bb, p.bb)]
+        R.require(some is not None and full_push and not b.can_reach(some, o.bb, no_nodes=tuple(p.bb for p in full_push)), "overlap-pushes", o.where(),
+                  "every overlap of a needed range with what the peer has is pushed as a Full need",
+                  fail_msg="an overlap between our need and the peer's haves can be dropped without a push")
+    # (2) contains(v) true -> Partial push
+    cont = [c for c in b.calls if re.search(r"RangeInclusiveSet::<T.*>::contains$", c.f) and "CrsqlDbVersion" in c.self_ty]
+    pn = [c for c in b.calls if c.name() == "next" and "CrsqlSeq" in c.self_ty and "hash::map::Iter" in c.self_ty and want["partial_need"] is not None and b.dominates(want["partial_need"].bb, c.bb)]
+    if R.anchor(cont, "contains", "other_haves.contains(v)") and R.anchor(pn, "partials-loop", "iteration over our partial_need[actor]"):
+        c = cont[0]
+        te, fe = flow.true_false_targets(b, c)
+        ok = bool(te)
+        for (u, v) in te:
+            if b.can_reach(v, pn[0].bb, no_nodes=tuple(p.bb for p in pushes)):
+                ok = False
+        R.require(ok, "contains-pushes", c.where(), "a partially held version the peer fully has is always requested",
+                  fail_msg="when other_haves.contains(v) a path reaches the next partial without pushing a Partial need")
+        some = _some_target(b, pn[0])
+        R.require(some is not None and not b.can_reach(some, pn[0].bb, no_nodes=(c.bb,)), "contains-per-partial", c.where(), "every partially held version is tested against other_haves",
+                  fail_msg="a partially held version can be passed over without testing other_haves.contains(v)")
+    # (3) head comparison: peer ahead (or actor unknown to us) -> Full push of the tail
+    hg = want["heads"]
+    gt = [c for c in b.calls if c.f.startswith("core::cmp::PartialOrd::") and "CrsqlDbVersion" in c.self_ty and hg is not None and b.dominates(hg.bb, c.bb)]
+    if hg is not None and R.anchor(gt, "head-compare", "comparison of the peer's head with ours"):
+        c = gt[0]
+        tail_push = [p for p in pushes if b.dominates(c.bb, p.bb) or b.dominates(hg.bb, p.bb)]
+        te, fe = flow.true_false_targets(b, c)
+        ahead = te if c.name() in ("gt", "lt", "ge", "le") else []
+        ok = bool(ahead) and bool(tail_push)
+        for (u, v) in ahead:
+            if hn.bb in flow.variant_reach(b, v, no_nodes=tuple(p.bb for p in tail_push)):
+                ok = False
+        R.require(ok, "ahead-pushes", c.where(), "when the head comparison succeeds the missing tail is pushed",
+                  fail_msg="the peer's head is ahead of ours but a path returns to the heads loop without pushing the tail")
+        # unknown actor: None edge of self.heads.get -> push
+        ve = flow.variant_edges(b, hg.dest)
+        okn = bool(ve)
+        for sw, m, other in ve:
+            none_t = m.get(0, other)
+            if hn.bb in flow.variant_reach(b, none_t, no_nodes=tuple(p.bb for p in tail_push), no_edges=[(sw, x) for v_, x in m.items() if v_ != 0]):
+                okn = False
+        R.require(okn, "unknown-actor-pushes", hg.where(), "an actor we have never heard of is requested from 1..=head",
+                  fail_msg="self.heads.get(actor) == None can return to the heads loop without pushing 1..=head")
+
+
+def _some_target(b, next_call):
+    for sw, m, other in flow.variant_edges(b, next_call.dest):
+        return m.get(1, other)
+    return None
